@@ -90,11 +90,12 @@ FunctionLang::execute(
                     DOMServices::s_XMLNamespaceURI,
                     s_attributeName);
 
-            const XalanDOMString&   langVal = theAttribute == 0 ?
-                        s_emptyString : theAttribute->getNodeValue();
-
-            if (langVal.empty() == false)
+            // The nearest xml:lang attribute determines the language;
+            // the ones further up are overridden by it.
+            if (theAttribute != 0)
             {
+                const XalanDOMString&   langVal = theAttribute->getNodeValue();
+
                 const GetCachedString   theGuard1(executionContext);
                 const GetCachedString   theGuard2(executionContext);
 
@@ -106,10 +107,10 @@ FunctionLang::execute(
                         langVal[valLen] == XalanUnicode::charHyphenMinus)
                     {
                         fMatch = true;
-
-                        break;
                     }
                 }
+
+                break;
             }
         }
 
